@@ -1,6 +1,7 @@
 import XModel.Parse
 import XModel.ManagerC11
 import XModel.Acyclic
+import XModel.ManagerLoad
 /-!
 # C11 — printed expressions rebuild themselves
 `C11_roundtrip_partial`: the language of the theorem is refs with string / integer keys, integer
@@ -102,5 +103,99 @@ example : scopeB sE da = true ∧ validSchedule sE.idx (chainR da) (findTaskids 
 example : (setValue id sL da (.int 5)).1.store = (setValue id sE da (.int 5)).1.store ∧
     get (setValue id sL da (.int 5)).1.store de = .ok (.int 35) := ⟨rfl, rfl⟩
 end example_
+
+
+/-! ### `load` for arbitrary dumps, `copy_expr_from` with re-bound labels (XModel/ManagerLoad.lean)
+
+The textual half (printing and re-parsing each pair) is `Parse.parse_print`; here pairs are structure.  `copy_expr_from` takes its
+pairs in dependency order in the code and in table order here: the copied targets are distinct, so every per-location
+statement is independent of that order (`Manager.lookDef_loadSpec_order_indep`). -/
+
+/-- **`load` for ARBITRARY pairs** (duplicates inside one dump, already defined targets, both values of `overwrite`): the task table afterwards is `loadSpec` — pairs processed left to right, each one deciding replace / skip against the table AS IT IS THEN — no error, index invariant kept -/
+theorem C11_load_is_the_fold :
+    ∀ (s : Manager.MState) (ow : Bool) (pairs : List (Manager.Path × Push.Expr)),
+      Manager.MInv s →
+        s.frozen = false →
+          (Manager.load s ow pairs).fst.defs = Manager.loadSpec ow s.defs pairs ∧
+            (Manager.load s ow pairs).snd = none ∧ Manager.MInv (Manager.load s ow pairs).fst :=
+  @Manager.load_defs
+
+/-- with `overwrite=True` a location gets the LAST pair for it in the dump, otherwise keeps what it had -/
+theorem C11_overwrite_last_pair_wins :
+    ∀ (pairs : List (Manager.Path × Push.Expr)) (defs : List Manager.MTask)
+      (q : Manager.Path),
+      Manager.lookDef (Manager.loadSpec true defs pairs) q =
+        Option.or (Option.map (Manager.mkExprTask q) (Manager.lastFor pairs q)) (Manager.lookDef defs q) :=
+  @Manager.lookDef_loadSpec_true
+
+/-- with `overwrite=False` an already defined location keeps its definition and a new one gets the FIRST pair for it -/
+theorem C11_no_overwrite_first_wins :
+    ∀ (pairs : List (Manager.Path × Push.Expr)) (defs : List Manager.MTask)
+      (q : Manager.Path),
+      Manager.lookDef (Manager.loadSpec false defs pairs) q =
+        Option.or (Manager.lookDef defs q) (Option.map (Manager.mkExprTask q) (Manager.firstFor pairs q)) :=
+  @Manager.lookDef_loadSpec_false
+
+/-- `load` registers definitions and changes nothing else: containers, remembered knob values, fault state and trace are as before -/
+theorem C11_load_evaluates_nothing :
+    ∀ (s : Manager.MState) (ow : Bool) (pairs : List (Manager.Path × Push.Expr)),
+      Manager.MInv s →
+        s.frozen = false →
+          (Manager.load s ow pairs).fst.store = s.store ∧
+            (Manager.load s ow pairs).fst.prev = s.prev ∧
+              (Manager.load s ow pairs).fst.frozen = false ∧
+                (Manager.load s ow pairs).fst.faultIn = s.faultIn ∧ (Manager.load s ow pairs).fst.trace = s.trace :=
+  @Manager.load_frame
+
+/-- loading the same dump a second time with `overwrite=True` reproduces the table exactly, order included -/
+theorem C11_load_twice_is_once :
+    ∀ (pairs : List (Manager.Path × Push.Expr)) (defs : List Manager.MTask),
+      Manager.loadSpec true (Manager.loadSpec true defs pairs) pairs = Manager.loadSpec true defs pairs :=
+  @Manager.loadSpec_true_idem
+
+/-- **re-rooting** (`copy_expr_from` with `bindings`): an expression whose leading labels are re-bound evaluates, in a store, to what the original evaluates to in the store seen through the bindings -/
+theorem C11_rebound_expression_means_the_same :
+    ∀ (sem : Push.Sem) (σ σv : Store.Val) (b : String → Option Manager.Path) (e : Push.Expr),
+      Manager.SeenThrough b σ σv →
+        (∀ (r : List Store.Step), r ∈ Push.leafRefs e → Manager.rooted r = true) →
+          Push.eval sem σ (Manager.rebindExpr b e) = Push.eval sem σv e :=
+  @Manager.eval_rebind
+
+/-- after `copy_expr_from(src, name, bindings)` (overwrite) the definition at a re-rooted target is the re-rooted definition of the source — decided by the LOCATION, not by how a definition prints -/
+theorem C11_copy_definitions_are_the_rerooted_ones :
+    ∀ (dst src : Manager.MState) (name : String) (b : String → Option Manager.Path),
+      Manager.MInv dst →
+        dst.frozen = false →
+          List.Nodup (List.map (fun x => x.id) src.defs) →
+            ∀ (p : Manager.Path) (e : Push.Expr),
+              (p, e) ∈ Manager.dump src →
+                Manager.underName name p = true →
+                  Manager.exprOf (Manager.copyExprFrom dst src name b true).fst (Manager.rebindPath b p) =
+                    some (Manager.rebindExpr b e) :=
+  @Manager.copy_true_exprOf
+
+/-- without overwrite a location of the destination that already has a definition keeps it — again by location: a definition elsewhere that merely prints like the copied one is irrelevant -/
+theorem C11_copy_without_overwrite_keeps_old :
+    ∀ (dst src : Manager.MState) (name : String) (b : String → Option Manager.Path),
+      Manager.MInv dst →
+        dst.frozen = false →
+          ∀ (q : Manager.Path) (t : Manager.MTask),
+            Manager.lookDef dst.defs q = some t →
+              Manager.lookDef (Manager.copyExprFrom dst src name b false).fst.defs q = some t :=
+  @Manager.copy_false_old
+
+/-- C01's per-definition predicate transfers along the copy: where the rebound containers hold the same contents, the copied definition holds in the destination iff the original holds in the source -/
+theorem C11_copied_definition_holds :
+    ∀ (dst src : Manager.MState) (name : String) (b : String → Option Manager.Path) (ow : Bool),
+      Manager.MInv dst →
+        dst.frozen = false →
+          ∀ (p : Manager.Path) (e : Push.Expr),
+            Manager.SeenThrough b dst.store src.store →
+              Manager.rooted p = true →
+                (∀ (r : List Store.Step), r ∈ Push.leafRefs e → Manager.rooted r = true) →
+                  (Push.exprSys Manager.pySem).Q { target := p, expr := e } src.store →
+                    (Push.exprSys Manager.pySem).Q { target := Manager.rebindPath b p, expr := Manager.rebindExpr b e }
+                      (Manager.copyExprFrom dst src name b ow).fst.store :=
+  @Manager.copy_holds
 
 end Properties.C11
